@@ -13,6 +13,7 @@
 #include "Neigh/NeighUnique.hpp"
 #include "Neigh/NeighMoving.hpp"
 #include "Estimation/CalcKriging.hpp"
+#include "Matrix/MatrixSquareSymmetric.hpp"
 #include "Estimation/CalcSimpleInterpolation.hpp"
 #include "Simulation/CalcSimuTurningBands.hpp"
 #include "Simulation/CalcSimuFFT.hpp"
@@ -189,7 +190,9 @@ static int runScenario(const std::string& profile, const std::string& variant, c
     if (variant == "block_on_points") { delete e.dbout; e.dbout = makePoints(ndim); }
     e.model = makeModel(ndimModel, nvarModel, ext);
     if (variant == "no_model") { delete e.model; e.model = nullptr; }
-    if (profile == "kriging_moving" || profile == "test_neigh" || variant == "moving")
+    if (profile == "kribayes" && e.model != nullptr) e.model->setDriftIRF(0);
+    if (profile == "kriging_moving" || profile == "test_neigh" || variant == "moving" || profile == "moving_average" ||
+        profile == "least_squares")
       e.neigh = NeighMoving::create(false, 5, 10.);
     else
       e.neigh = NeighUnique::create();
@@ -203,7 +206,8 @@ static int runScenario(const std::string& profile, const std::string& variant, c
       {"kriging", "Kriging"}, {"kriging_moving", "Kriging"}, {"kriging_extdrift", "Kriging"}, {"xvalid", "Xvalid"},
       {"test_neigh", "Neigh"}, {"simtub_nc", "Simu"}, {"simtub_cond", "Simu"}, {"migrate", "Migrate"},
       {"stats_grid", "Stats"}, {"simple_interp", "InvDist"}, {"simfft", "FFT"}, {"anam_transform", "Y"},
-      {"regression", "Regr"}, {"krigtest", "Kriging"}};
+      {"regression", "Regr"}, {"krigtest", "Kriging"}, {"nearest_neighbor", "Nearest"}, {"moving_average", "MovAve"},
+      {"least_squares", "LstSqr"}, {"migrate_multi", "Migrate"}, {"migrate_locator", "Migrate"}, {"kribayes", "Bayes"}};
     auto it = PFX.find(profile);
     e.prefix = it == PFX.end() ? "" : it->second;
     applyPrior(e.dbout, prior, e.prefix);
@@ -277,6 +281,37 @@ static int runScenario(const std::string& profile, const std::string& variant, c
   {
     err = dbRegression(e.dbin, "z1", {variant == "bad_name" ? "nosuchvar" : "x1"});
     e.expectedNew = 1;
+  }
+  else if (profile == "nearest_neighbor")
+  {
+    err = nearestNeighbor(e.dbin, e.dbout);
+    e.expectedNew = 1;
+  }
+  else if (profile == "moving_average")
+  {
+    err = movingAverage(e.dbin, e.dbout, e.neigh);
+    e.expectedNew = 1;
+  }
+  else if (profile == "least_squares")
+  {
+    err = leastSquares(e.dbin, e.dbout, e.neigh, 1);
+    e.expectedNew = 1;
+  }
+  else if (profile == "migrate_multi")
+  {
+    err = migrateMulti(e.dbin, e.dbout, {variant == "bad_name" ? "nosuchvar" : "z1", "x1"});
+    e.expectedNew = 2;
+  }
+  else if (profile == "migrate_locator")
+  {
+    err = migrateByLocator(e.dbin, e.dbout, ELoc::Z);
+    e.expectedNew = 1;
+  }
+  else if (profile == "kribayes")
+  {
+    MatrixSquareSymmetric pc(1); pc.setValue(0, 0, 0.5);
+    err = kribayes(e.dbin, e.dbout, e.model, e.neigh, {0.3}, pc, true, true);
+    e.expectedNew = 2;
   }
   else
     throw std::runtime_error("unknown profile " + profile);
